@@ -45,7 +45,7 @@ mg_harness!(c01_is_in_check, 9, {
 
 // ---------------------------------------------------------------------------------- legality filter
 /// move classes of the case split
-pub const CL_QUIET: u8 = 0; pub const CL_CAPTURE: u8 = 1; pub const CL_PROMO: u8 = 2; pub const CL_EP: u8 = 3; pub const CL_CASTLE: u8 = 4; pub const CL_KING: u8 = 5;
+pub const CL_QUIET: u8 = 0; pub const CL_CAPTURE: u8 = 1; pub const CL_PROMO: u8 = 2; pub const CL_EP: u8 = 3; pub const CL_CASTLE: u8 = 4; pub const CL_KING: u8 = 5; pub const CL_KINGCAP: u8 = 6;
 fn in_class(m: &Move, class: u8) -> bool {
     let king = m.piece_type == Piece::King;
     match class {
@@ -61,14 +61,23 @@ fn in_class(m: &Move, class: u8) -> bool {
 /// below it) on EVERY valid position with the mover's king on `ksq`, for every pseudo-legal move
 /// of the class: accepted exactly when the rules allow it.
 pub fn filter_case(white: bool, ksq: u8, class: u8) {
-    let b = any_board();
+    // side to move and move type are CONCRETE per case (assigned, not assumed): with a symbolic move type every
+    // branch of make_move/apply is explored in one query (measured: 33 GB instead of ~3 GB)
+    let mut b = any_board();
+    b.active_color = if white { Color::White } else { Color::Black };
     let p = from_board(&b);
     let us = if white { 0 } else { 1 };
-    sym::assume(p.stm == us && p.pc[K] & p.col[us] == bit(ksq));
+    sym::assume(p.pc[K] & p.col[us] == bit(ksq));
     sym::assume(valid(&p));
-    let m = any_move();
-    sym::assume(in_class(&m, class) && pseudo_legal(&p, &m));
+    let mt = match class { CL_QUIET => MoveType::Quiet, CL_CAPTURE => MoveType::Capture, CL_PROMO => MoveType::Promotion, CL_EP => MoveType::EnPassant, CL_CASTLE => MoveType::Castle, CL_KING => MoveType::Quiet, _ => MoveType::Capture };
+    let mut m = any_move_of(mt);
+    if class == CL_CASTLE || class >= CL_KING { m.piece_type = Piece::King; } else { sym::assume(m.piece_type != Piece::King); }
+    sym::assume(pseudo_legal(&p, &m));
     let mg = mk_movegen();
+    // king_square() is replaced by the case's constant (kani::stub; c01_king_square proves the real one returns the
+    // king's square for every valid board): with a CONCRETE king square the between/line table lookups of the pin
+    // and check logic become 64-way instead of 4096-way selections (127 M clauses -> a few M)
+    unsafe { MGS.case_king = ksq; }
     let got = vh::filter_one(&mg, &b, &m);
     let want = legal(&p, &m);
     vassert!(got == want, "C01: legality filter disagrees with the rules (a legal move is dropped or an illegal one kept)");
@@ -76,15 +85,32 @@ pub fn filter_case(white: bool, ksq: u8, class: u8) {
     vcover!(!want, "illegal pseudo-legal move of the class");
     core::mem::forget(mg);
 }
-macro_rules! filter_harness { ($name:ident, $w:literal, $k:literal, $c:literal) => { mg_harness!($name, 17, { filter_case($w, $k, $c); }); }; }
+macro_rules! filter_harness { ($name:ident, $w:literal, $k:literal, $c:literal) => {
+    #[cfg_attr(kani, kani::proof)]
+    #[cfg_attr(kani, kani::unwind(17))]
+    #[cfg_attr(kani, kani::stub(crate::magic::Magic::get_rook_attacks, crate::common::stub_rook))]
+    #[cfg_attr(kani, kani::stub(crate::magic::Magic::get_bishop_attacks, crate::common::stub_bishop))]
+    #[cfg_attr(kani, kani::stub(crate::move_gen::MoveGenerator::king_square, crate::move_gen::vh::stub_king_square))]
+    pub fn $name() { filter_case($w, $k, $c); }
+}; }
+// king_square returns the square of the mover's king, for every valid position (justifies the stub above)
+mg_harness!(c01_king_square, 9, {
+    let b = any_board();
+    let p = from_board(&b);
+    sym::assume(valid(&p));
+    let mg = mk_movegen();
+    vassert!(mg.king_square(&b) == king_sq(&p, p.stm), "C01: king_square is not the square of the mover's king");
+    vcover!(p.stm == 1 && king_sq(&p, 1) == 63, "black king on h8");
+    core::mem::forget(mg);
+});
 include!("gen/h_c01_cases.rs");
 
 // ---------------------------------------------------------------------------------- generators + glue
 fn same_move(a: &Move, b: &Move) -> bool { a.from == b.from && a.to == b.to && a.piece_type == b.piece_type && a.move_type == b.move_type }
 /// an arbitrary but fixed predicate on moves (the SALT is symbolic): stands for "the filter accepts m"
-pub struct MgState { pub magic: u64, pub salt: u32 }
+pub struct MgState { pub magic: u64, pub salt: u32, pub case_king: u8, pub exp_king: u8, pub exp_checkers: u64, pub exp_pinned: u64 }
 /// (struct with a sentinel field: see h_eval.rs)
-pub static mut MGS: MgState = MgState { magic: 0x5EED_5A17_0BAD_F00D, salt: 0 };
+pub static mut MGS: MgState = MgState { magic: 0x5EED_5A17_0BAD_F00D, salt: 0, case_king: 64, exp_king: 64, exp_checkers: 0, exp_pinned: 0 };
 pub fn pred(m: &Move) -> bool {
     let x = (m.from as u32) * 64 + m.to as u32 + 4096 * (pidx(m.piece_type) as u32) + 32768 * (match m.move_type { MoveType::Quiet => 0, MoveType::Capture => 1, MoveType::EnPassant => 2, MoveType::Castle => 3, MoveType::Promotion => 4 });
     ((x ^ unsafe { MGS.salt }).wrapping_mul(0x9E37_79B1) >> 13) & 1 == 1
@@ -95,12 +121,16 @@ pub fn pred(m: &Move) -> bool {
 /// moves of its class, nothing twice, retain() applies the filter to each, nothing is appended later -
 /// and the filter is handed the mover's king square, the checkers of that square and the pinned men.
 /// Boards: two kings and up to `extra` further men of any kind, any (consistent) flags.
-pub fn generators_case(extra: usize) {
-    let b = small_board(extra);
+pub fn generators_case(extra: usize, kind: u8) {
+    let (b, men) = small_board_men(extra);
     let p = from_board(&b);
     sym::assume(valid(&p));
+    // the first further man's kind is concrete per harness (5 harnesses instead of one 16 GB query)
+    sym::assume(!men[2].0 || men[2].2 == kind as usize);
     unsafe { MGS.salt = sym::u32(); }
     let mg = mk_movegen();
+    let (ek, ec, ep) = vh::expected_filter_args(&mg, &b);
+    unsafe { MGS.exp_king = ek; MGS.exp_checkers = ec; MGS.exp_pinned = ep; }
     let out = mg.generate_moves(&b);
     let n = out.len();
     // under Kani the filter is the arbitrary predicate; in a native replay (no stubs) it is the real filter,
@@ -122,8 +152,13 @@ pub fn generators_case(extra: usize) {
     vcover!(i < n && out[i].move_type == MoveType::Promotion && out[i].piece_type == Piece::Knight, "knight promotion generated");
     core::mem::forget(mg);
 }
-mg_filterstub_harness!(c01_generators_3men, 40, { generators_case(1); });
-mg_filterstub_harness!(c01_generators_4men, 68, { generators_case(2); });
+mg_filterstub_harness!(c01_generators_3men_pawn, 24, { generators_case(1, 0); });
+mg_filterstub_harness!(c01_generators_3men_knight, 20, { generators_case(1, 1); });
+mg_filterstub_harness!(c01_generators_3men_bishop, 24, { generators_case(1, 2); });
+mg_filterstub_harness!(c01_generators_3men_rook, 26, { generators_case(1, 3); });
+mg_filterstub_harness!(c01_generators_3men_queen, 38, { generators_case(1, 4); });
+mg_filterstub_harness!(c01_generators_4men_pawn, 40, { generators_case(2, 0); });
+mg_filterstub_harness!(c01_generators_4men_queen, 66, { generators_case(2, 4); });
 
 // ---------------------------------------------------------------------------------- C17
 /// For every valid position and every legal move: the engine's quiescence predicate
@@ -157,12 +192,15 @@ mg_harness!(c17_qpred_promotion, 9, { qpred_case(MoveType::Promotion); });
 /// generate_quiescence_moves(b) is exactly the sub-list of generate_moves(b) selected by
 /// is_capture || is_promotion || is_check (is_check replaced by an arbitrary predicate on the move,
 /// the real one is c17_qpred_*; the legality filter by another): nothing added, nothing dropped.
-pub fn qglue_case(extra: usize) {
-    let b = small_board(extra);
+pub fn qglue_case(extra: usize, kind: u8) {
+    let (b, men) = small_board_men(extra);
     let p = from_board(&b);
     sym::assume(valid(&p));
+    sym::assume(!men[2].0 || men[2].2 == kind as usize);
     unsafe { MGS.salt = sym::u32(); }
     let mg = mk_movegen();
+    let (ek, ec, ep) = vh::expected_filter_args(&mg, &b);
+    unsafe { MGS.exp_king = ek; MGS.exp_checkers = ec; MGS.exp_pinned = ep; }
     let all = mg.generate_moves(&b);
     let q = mg.generate_quiescence_moves(&b);
     let (na, nq) = (all.len(), q.len());
@@ -185,5 +223,51 @@ pub fn qglue_case(extra: usize) {
     vcover!(nq > 0 && nq < na, "some but not all moves are tactical");
     core::mem::forget(mg);
 }
-mg_filterstub_harness!(c17_qglue_3men, 40, { qglue_case(1); });
-mg_filterstub_harness!(c17_qglue_4men, 68, { qglue_case(2); });
+mg_filterstub_harness!(c17_qglue_3men_pawn, 24, { qglue_case(1, 0); });
+mg_filterstub_harness!(c17_qglue_3men_knight, 20, { qglue_case(1, 1); });
+mg_filterstub_harness!(c17_qglue_3men_rook, 26, { qglue_case(1, 3); });
+mg_filterstub_harness!(c17_qglue_3men_queen, 38, { qglue_case(1, 4); });
+
+// ---------------------------------------------------------------------------------- single generators
+/// One pseudo-legal generator at a time (no filter, no retain), on boards with two kings, one man of the
+/// generator's kind for the side to move and one further arbitrary man: the generated list is exactly
+/// the pseudo-legal moves of that kind (every element pseudo-legal and of the kind, none twice, none
+/// missing).  which: 0 pawn moves (pushes, double pushes, captures, en passant, promotions),
+/// 1 knight, 2 bishop, 3 rook, 4 queen, 5 king steps, 6 castles.
+pub fn single_generator_case(which: u8) {
+    let (b, men) = small_board_men(2);
+    let p = from_board(&b);
+    sym::assume(valid(&p));
+    let us = p.stm;
+    // man 2: present, ours, of the generator's kind (king steps / castles: a rook, so castling can be available)
+    let kind = if which <= 4 { which as usize } else { 3 };
+    sym::assume(men[2].0 && men[2].1 == us && men[2].2 == kind);
+    let mg = mk_movegen();
+    let out = match which { 0 => vh::gen_pawns(&mg, &b), 6 => vh::gen_castles(&mg, &b), _ => vh::gen_piece(&mg, &b, piece_of(which)) };
+    let n = out.len();
+    let of_kind = |m: &Move| match which {
+        0 => m.move_type != MoveType::Castle && (m.piece_type == Piece::Pawn || m.move_type == MoveType::Promotion) && piece_at(&p, m.from) == 0,
+        6 => m.move_type == MoveType::Castle,
+        _ => m.piece_type == piece_of(which) && (m.move_type == MoveType::Quiet || m.move_type == MoveType::Capture),
+    };
+    let i = sym::u8() as usize; let j = sym::u8() as usize;
+    if i < n {
+        vassert!(pseudo_legal(&p, &out[i]) && of_kind(&out[i]), "C01: a generator emits a move that is not a pseudo-legal move of its kind");
+        if j < n && i != j { vassert!(!same_move(&out[i], &out[j]), "C01: a generator emits a move twice"); }
+    }
+    let m = any_move();
+    if pseudo_legal(&p, &m) && of_kind(&m) {
+        let mut found = false; let mut k = 0;
+        while k < n { if same_move(&out[k], &m) { found = true; } k += 1; }
+        vassert!(found, "C01: a pseudo-legal move is missing from its generator's output");
+    }
+    vcover!(n >= 3, "three or more moves generated");
+    core::mem::forget(mg);
+}
+mg_harness!(c01_gen_pawn, 15, { single_generator_case(0); });
+mg_harness!(c01_gen_knight, 11, { single_generator_case(1); });
+mg_harness!(c01_gen_bishop, 16, { single_generator_case(2); });
+mg_harness!(c01_gen_rook, 17, { single_generator_case(3); });
+mg_harness!(c01_gen_queen, 30, { single_generator_case(4); });
+mg_harness!(c01_gen_king, 11, { single_generator_case(5); });
+mg_harness!(c01_gen_castles, 9, { single_generator_case(6); });
